@@ -599,8 +599,8 @@ def rule_r7(ctx):
                     blk = getattr(p, "_parent", None)
                     nxt = blk.body[blk.body.index(p) + 1] if hasattr(blk, "body") and p in blk.body and blk.body.index(p) + 1 < len(blk.body) else None
                     # … or the try that follows begins with it (an outer try/finally that only adds further cleanup)
-                    while isinstance(nxt, ast.Try) and nxt is not t and nxt.body and isinstance(nxt.body[0], ast.Try):
-                        nxt = nxt.body[0]
+                    while isinstance(nxt, (ast.Try, ast.With)) and nxt is not t and nxt.body and isinstance(nxt.body[0], (ast.Try, ast.With)):
+                        nxt = nxt.body[0]  # an outer try/finally or `with <resources>:` that only adds further cleanup
                     adj = nxt is t
                     if (h_ok and n_ok or shut(t.finalbody)) and adj:
                         ok = True
@@ -646,7 +646,17 @@ def rule_r8(ctx):
                     p_ = getattr(p_, "_parent", None)
                 if sc.func.attr == "map" and len(sc.args) > 1:
                     rng = sc.args[1]
-                whole = rng is not None and any(isinstance(x, ast.Attribute) and x.attr in ("_tensors", "_external_data_infos") for x in ast.walk(rng))
+                # what the range is taken from, through locals bound once (`count = len(self._tensors)` … `range(count)`)
+                exprs, seen_n = [rng] if rng is not None else [], set()
+                for e in list(exprs):
+                    for x in ast.walk(e):
+                        if isinstance(x, ast.Name) and x.id not in seen_n:
+                            seen_n.add(x.id)
+                            bs = [a.value for a in own_nodes(parent.node) if isinstance(a, (ast.Assign, ast.AnnAssign)) and getattr(a, "value", None) is not None
+                                  and any(isinstance(t, ast.Name) and t.id == x.id for t in (a.targets if isinstance(a, ast.Assign) else [a.target]))]
+                            if len(bs) == 1:
+                                exprs.append(bs[0])
+                whole = any(isinstance(x, ast.Attribute) and x.attr in ("_tensors", "_external_data_infos") for e in exprs for x in ast.walk(e))
                 ctx.check("R8", f"{parent.local}: {f.name} is submitted for every tensor", flt is None and whole, parent, flt if flt is not None else sc,
                           f"the worker that invokes the callback is submitted only for some tensors (`{norm(flt)[:90] if flt is not None else norm(sc)}`): "
                           "the progress callback is not called for the others, although the serial writer calls it for every tensor",
